@@ -198,6 +198,13 @@ def run(ctx):
         elif f[0] == "EVALS":
             ctx.cov["evaluations"] += int(f[1])
             ctx.notes["search_evaluations"] = int(f[1])
+    ctx.notes["hygiene_oracles"] = (
+        "search re-runs EVERY case (valid and mutated) in a shuffled order on sub-slices with 24 guard bytes behind them, the "
+        "caller overwriting all NAL unit buffers / lists after the call (harness/c15/hygiene.go): classes keeps-callers-buffer, "
+        "writes-beyond-len, depends-on-capacity, depends-on-earlier-calls (also: A, malformed A', A through the SAME spsMap/ppsMap, "
+        "maps unchanged), result-not-stable, encode-sw-spare-room / encode-size / encode-not-repeatable / encode-mutates-record "
+        "(avc/hevc DecConfRec.EncodeSW into Size()+{0,1,9} writers). Not demanded: Decode{AVC,HEVC}DecConfRec return views of "
+        "their input by design (C20 audited list).")
     sig = {}
     for f in fails:
         sig[(f[1], f[2])] = sig.get((f[1], f[2]), 0) + 1
